@@ -8,6 +8,7 @@ package verifharness
 import (
 	"fmt"
 	"io"
+	"runtime"
 	"strconv"
 
 	"github.com/cockroachdb/redact"
@@ -289,6 +290,50 @@ type StructC struct {
 	St fmt.Stringer
 	M  map[string]interface{}
 	P  *int
+}
+
+// TagStruct: an unnamed struct type whose tags contain marker characters, so
+// that its type name (printed by %T, %#v and in bad-verb reports) does too.
+type TagStruct = struct {
+	A int    "›k‹"
+	B string "‹"
+}
+
+// RtPanicStringer panics with a Go runtime error whose message carries data
+// derived from the value ("index out of range [4711] with length 3").
+type RtPanicStringer struct{ Idx int }
+
+func (r RtPanicStringer) String() string {
+	var a [3]int
+	i := r.Idx
+	if i < 3 {
+		i = 3
+	}
+	return strconv.Itoa(a[i])
+}
+
+// YieldStringer gives up the processor inside its method, so that calls on
+// other goroutines run while this one is in the middle of a print.
+type YieldStringer struct {
+	S string
+	N int
+}
+
+func (y YieldStringer) String() string {
+	for i := 0; i < y.N; i++ {
+		runtime.Gosched()
+	}
+	return y.S
+}
+
+// unnamed struct types with promoted methods
+type EmbSafe = struct {
+	redact.SafeString
+	N int
+}
+type EmbStringer = struct {
+	StrStringer
+	N int
 }
 
 // ---- writers ------------------------------------------------------------
